@@ -519,6 +519,8 @@ def run(ctx: Context, rep) -> None:
     # nothing read from the dataset's files / the environment is memoised
     from sa.rules import shared as _shm
     _shm.check_no_memo(ctx, rep, "C10.memo")
+    _shm.check_no_shared_class_state(ctx, rep, "C10.class-state")
+    _shm.check_assert_pure(ctx, rep, "C10.assert")
 
 _P = "src/sedpack/io/dataset_filler.py"
 SELFTESTS = [
